@@ -372,3 +372,5 @@ def replay(ck, rec):
     stats = {"bash": 0, "parent_changed": 0, "nontrivial": 0}
     pds = {pdkey(pd["pd"]): pd}
     judge(ck, pds, dev_predictions(ck, [c]), c, stats)
+    for d in ck.drifts:
+        print("SPEC-DRIFT property=C27 %s: spec=%r impl=%r bash=%r" % (d.get("what"), d.get("spec"), d.get("impl"), d.get("bash")))
